@@ -26,7 +26,7 @@ var c18Relevant = map[string][]string{
 	"C08": {"alg/heuristic/heuristic.go", "alg/contfrac/contfrac.go", "internal/bigints/bigints.go"},
 	"C11": {"alg/dict/runs.go", "chain.go", "program.go", "internal/bigints/bigints.go"},
 	"C09": {"alg/dict/dict.go"},
-	"C01": {"alg/dict/dict.go"},
+	"C01": {"alg/dict/dict.go", "alg/binary/binary.go"},
 }
 
 func init() {
@@ -81,7 +81,7 @@ var c18Targets = []struct{ file, key string }{
 	{"chain.go", "Chain.Superset"}, {"chain.go", "Chain.Clone"}, {"chain.go", "Product"}, {"chain.go", "Plus"},
 	{"alg/dict/runs.go", "dict.RunsChain"}, {"alg/dict/dict.go", "dict.Term.Int"}, {"alg/dict/dict.go", "dict.Sum.Int"},
 	{"alg/dict/dict.go", "dict.Sum.Dictionary"}, {"alg/dict/dict.go", "dict.FixedWindow.Decompose"},
-	{"alg/dict/dict.go", "dict.dictsumchain"},
+	{"alg/dict/dict.go", "dict.dictsumchain"}, {"alg/binary/binary.go", "binary.RightToLeft.FindChain"},
 	{"alg/opt/opt.go", "opt.pruneuses"}, {"alg/opt/opt.go", "opt.Optimize"},
 	{"alg/heuristic/heuristic.go", "heuristic.Halving.Suggest"}, {"alg/heuristic/heuristic.go", "heuristic.DeltaLargest.Suggest"},
 	{"alg/heuristic/heuristic.go", "heuristic.Approximation.Suggest"},
@@ -102,7 +102,7 @@ func extractC18(c *Ctx, pid string) {
 	old := c18OldBlocks(c)
 	decls := map[string]*ast.FuncDecl{}
 	fsets := map[string]*token.FileSet{}
-	for _, file := range []string{"program.go", "chain.go", "internal/bigints/bigints.go", "internal/bigint/bigint.go", "alg/opt/opt.go", "alg/heuristic/heuristic.go", "alg/contfrac/contfrac.go", "alg/dict/runs.go", "alg/dict/dict.go"} {
+	for _, file := range []string{"program.go", "chain.go", "internal/bigints/bigints.go", "internal/bigint/bigint.go", "alg/opt/opt.go", "alg/heuristic/heuristic.go", "alg/contfrac/contfrac.go", "alg/dict/runs.go", "alg/dict/dict.go", "alg/binary/binary.go"} {
 		fset, f, err := c.ParseFile(file)
 		if err != nil {
 			c.Fail(file, err)
